@@ -59,7 +59,7 @@ PROPS = {
         "trusted": [
             "the in-memory gitstore.Storer of the harness and its independent graph reader",
             "policy staging/apply and attestation commits are represented by the reference entries they record (their own "
-            "ref handling is C12/C16); SkipAllInvalidReferenceEntriesForRef is not modelled yet",
+            "ref handling is C12/C16); SkipAllInvalidReferenceEntriesForRef is observed for the shape of the log only (C03Api cases)",
         ],
         "assumptions": ["single writer, no storage faults (C17, C16 cover those)"],
     },
@@ -210,16 +210,22 @@ PROPS = {
     "C12": {
         "propfile": "PropC12.v",
         "n": {"quick": 400, "thorough": 8000},
-        "corr": "policy.State.Commit (staging) / policy.Apply / policy.Discard / direct ref tampering vs astep (ApplyModel.v)",
+        "corr": "policy.State.Commit (staging) / policy.Apply / policy.Discard / direct ref tampering vs astep (ApplyModel.v); gittuf.Repository root mutators + Apply vs api_step (RootApi.v)",
         "rule": "sequences of 2-10 operations on an in-memory Storer: stage a policy state (valid successor, or one of the forbidden "
                 "ones: self-signed replacement root, unsigned/wrongly signed root, forged or rolled-back rule file, dropped/dangling "
-                "delegated file), Apply, Discard, set refs/gittuf/policy or policy-staging directly to an earlier staged commit. After "
+                "delegated file; one staging in six carries metadata of a declared controller repository that cannot be verified - "
+                "nothing at its location, or a real controller repository that no propagation entry vouches for), Apply, Discard, set refs/gittuf/policy or policy-staging directly to an earlier staged commit. After "
                 "every operation: error, both refs, the policy/staging entries of the log (independent walker) and whether "
-                "LoadCurrentState(policy) succeeds. non-trivial = >=4 operations",
-        "theorems": ["C12_apply", "C12_refused", "C12_discard", "C12_published_always_loadable"],
+                "LoadCurrentState(policy) succeeds. non-trivial = >=4 operations. One case in forty (at least 8) is an API sequence on a real "
+                "repository: 4-9 calls of AddRootKey / RemoveRootKey / UpdateRootThreshold(0..3) / SignRoot by keys 1,3,5 (root candidates) or 6 "
+                "(never a root key), interleaved with Apply; after every call the staged root (role keys, threshold, version, signature key ids), "
+                "policy==staging and LoadCurrentState(policy) are read back",
+        "theorems": ["C12_apply", "C12_refused", "C12_discard", "C12_published_always_loadable", "C12_api_edit_needs_root_signer",
+                     "C12_api_outsider_refused", "C12_api_published_always_loadable"],
         "trusted": [
             "sequences in which staging diverges from policy (ReconcileStaging rewrites history) are skipped and counted",
-            "the experimental/gittuf API guard (non-root signers refused) is not exercised",
+            "the experimental/gittuf API guard is exercised for the root-role mutators only (rule-file, hook, app, global-rule mutators are not called)",
+            "the controller part of State.Verify is an input flag of the model (pc_ctl_ok); only its failing outcomes are generated",
         ],
         "assumptions": [],
     },
